@@ -6,8 +6,8 @@
 EXTENDS Overlay, OvlRefs, Json, IOUtils, Integers
 Rec == ndJsonDeserialize(IOEnv.TRACE)
 
-VARIABLES l, S, view, hasUpper, B, fresh, lastf, lop, fdbase, since
-vars == <<l, S, view, hasUpper, B, fresh, lastf, lop, fdbase, since>>
+VARIABLES l, S, view, hasUpper, B, fresh, lastf, lop, fdbase, since, rdirs, rmd
+vars == <<l, S, view, hasUpper, B, fresh, lastf, lop, fdbase, since, rdirs, rmd>>
 
 Markers == {"trusted.overlay.opaque", "user.overlay.opaque", "user.fuseoverlayfs.opaque"}
 Tok(s, i) == IF s = "Z" THEN "Z" ELSE s \o "." \o ToString(i)
@@ -65,12 +65,12 @@ Probes(S0, rows) == IF rows = <<>> THEN S0
                          Probes(RViol(RProbe(S0, r.ino, r.st = 0, r.st # 0 \/ SameAs(S0, view, r)),
                                       IF r.st = -2 THEN {RSig("probe", "panic")} ELSE {}), Tail(rows))
 
-Init == l = 1 /\ S = RInit /\ view = EmptyTree /\ hasUpper = TRUE /\ B = 1 /\ fresh = TRUE /\ lastf = "" /\ lop = "start" /\ fdbase = -1000 /\ since = ""
+Init == l = 1 /\ S = RInit /\ view = EmptyTree /\ hasUpper = TRUE /\ B = 1 /\ fresh = TRUE /\ lastf = "" /\ lop = [op |-> "start", p |-> <<>>] /\ fdbase = -1000 /\ since = "" /\ rdirs = {} /\ rmd = FALSE
 
 Step ==
   /\ l <= Len(Rec)
   /\ LET r == Rec[l] IN
-     CASE r.e = "Reset" -> /\ S' = RInit /\ view' = EmptyTree /\ hasUpper' = r.upper /\ B' = r.B /\ fresh' = TRUE /\ lastf' = "" /\ lop' = "start" /\ fdbase' = -1000 /\ since' = ""
+     CASE r.e = "Reset" -> /\ S' = RInit /\ view' = EmptyTree /\ hasUpper' = r.upper /\ B' = r.B /\ fresh' = TRUE /\ lastf' = "" /\ lop' = [op |-> "start", p |-> <<>>] /\ fdbase' = -1000 /\ since' = "" /\ rdirs' = {} /\ rmd' = FALSE
        [] r.e = "View" ->
             LET logged == TreeOf(r.rows)
                 \* a forget must never change the tree
@@ -79,7 +79,7 @@ Step ==
             IN /\ TRUE = Report(S2, [lost |-> {p \in Paths : Shape(logged)[p] # Shape(view)[p]}])
                /\ S' = S2
                /\ view' = IF fresh THEN logged ELSE Resync(logged, view)
-               /\ fresh' = FALSE /\ UNCHANGED <<hasUpper, B, lastf, lop, fdbase, since>>
+               /\ fresh' = FALSE /\ UNCHANGED <<hasUpper, B, lastf, lop, fdbase, since, rdirs, rmd>>
        [] r.e = "Op" ->
             LET res == AfterOp(r)
                 S2 == RViol(res[1], PanicOf(r))
@@ -87,23 +87,26 @@ Step ==
                /\ S' = S2 /\ view' = res[2]
                /\ lastf' = IF r.op \in {"forget", "batch_forget"}
                            THEN (IF S2.over # S.over THEN "over-forget" ELSE "forget") ELSE ""
-               /\ lop' = r.op
+               /\ lop' = [op |-> r.op, p |-> IF Has(r, "p") THEN r.p ELSE <<>>]
+               \* directories a readdirplus reply listed "." for, and their parents ("..")
+               /\ rdirs' = IF r.op = "rdplus" /\ r.st = 0 THEN rdirs \cup {r.p} \cup (IF r.p # Root THEN {Parent(r.p)} ELSE {}) ELSE rdirs
+               /\ rmd' = (rmd \/ (r.op = "rmdir" /\ r.st = 0))
                /\ UNCHANGED <<hasUpper, B, fresh, fdbase, since>>
        [] r.e = "Probe" ->
             LET S2 == Probes(S, r.rows)
-            IN /\ TRUE = Report(S2, r.rows) /\ S' = S2 /\ UNCHANGED <<view, hasUpper, B, fresh, lastf, lop, fdbase, since>>
+            IN /\ TRUE = Report(S2, r.rows) /\ S' = S2 /\ UNCHANGED <<view, hasUpper, B, fresh, lastf, lop, fdbase, since, rdirs, rmd>>
        [] r.e = "End" ->
-            LET S2 == REnd(S, since)
-            IN /\ TRUE = Report(S2, r) /\ S' = S2 /\ UNCHANGED <<view, hasUpper, B, fresh, lastf, lop, fdbase, since>>
+            LET S2 == REnd(S, since # "", rdirs \ {Root} # {}, rmd)
+            IN /\ TRUE = Report(S2, r) /\ S' = S2 /\ UNCHANGED <<view, hasUpper, B, fresh, lastf, lop, fdbase, since, rdirs, rmd>>
        [] r.e = "Fds" ->
             \* descriptors beyond a fresh instance; the first measurement of a segment is the fdbase line
             LET e == r.live - r.fresh IN
             /\ fdbase' = IF fdbase = -1000 THEN e ELSE fdbase
-            /\ since' = IF fdbase = -1000 \/ e <= fdbase THEN "" ELSE IF since = "" THEN lop ELSE since
-            /\ UNCHANGED <<S, view, hasUpper, B, fresh, lastf, lop>>
-       [] OTHER -> UNCHANGED <<S, view, hasUpper, B, fresh, lastf, lop, fdbase, since>>
+            /\ since' = IF fdbase = -1000 \/ e <= fdbase THEN "" ELSE "x"
+            /\ UNCHANGED <<S, view, hasUpper, B, fresh, lastf, lop, rdirs, rmd>>
+       [] OTHER -> UNCHANGED <<S, view, hasUpper, B, fresh, lastf, lop, fdbase, since, rdirs, rmd>>
   /\ l' = l + 1
-Done == l = Len(Rec) + 1 /\ PrintT(<<"ACCEPTED", Len(Rec)>>) /\ l' = l + 1 /\ UNCHANGED <<S, view, hasUpper, B, fresh, lastf, lop, fdbase, since>>
+Done == l = Len(Rec) + 1 /\ PrintT(<<"ACCEPTED", Len(Rec)>>) /\ l' = l + 1 /\ UNCHANGED <<S, view, hasUpper, B, fresh, lastf, lop, fdbase, since, rdirs, rmd>>
 Next == Step \/ Done
 Spec == Init /\ [][Next]_vars
 =============================================================================
